@@ -132,6 +132,15 @@ def load_result_falls_through(A: Analysis, col: Collector, rule: str):
             if isinstance(n, ast.Return) and (n.value is None or (isinstance(n.value, ast.Constant) and n.value.value is None)):
                 if any(is_within(n, s) for s in loop.body):
                     bad.append(n)
+            if isinstance(n, ast.Return) and isinstance(n.value, ast.Call) and any(is_within(n, s) for s in loop.body):
+                # `return helper(...)`: gives up at this location if the helper can return None
+                for g in A.resolve(n.value, fn).repo_targets:
+                    if isinstance(g, FuncInfo):
+                        gc = A.cfg(g)
+                        falls_off = any(p.kind != "return" for _, p in gc.exit_ret.pred)
+                        ret_none = any(isinstance(r, ast.Return) and (r.value is None or (isinstance(r.value, ast.Constant) and r.value.value is None)) for r in walk_own(g.node))
+                        if falls_off or ret_none:
+                            bad.append(n)
             if isinstance(n, ast.Break) and any(is_within(n, s) for s in loop.body):
                 # a break out of the location loop (not out of an inner retry loop)
                 inner = [p for p in parents(n) if isinstance(p, (ast.For, ast.While))]
@@ -153,6 +162,19 @@ def load_result_falls_through(A: Analysis, col: Collector, rule: str):
             col.ok(rule, "Job.result looks the checksum up in self.all_caches (cache root first, then read-only caches)", A.loc(c))
         else:
             col.fail(rule, job_result.qualname, f"lookup-list:{norm(a, 30)}", f"Job.result looks results up in `{norm(a, 40)}` rather than in all caches", A.loc(c))
+    # the locations are made absolute when the submitter is built: the run functions change the
+    # working directory (os.chdir(cache_dir), Audit.start_audit), and nested jobs are created and
+    # looked up while it is changed, so a relative location would point somewhere else
+    init = A.func("pydra.engine.submitter.Submitter.__init__")
+    col.scope(init.qualname)
+    stores = [n for n in walk_own(init.node) if isinstance(n, ast.Assign) and any(isinstance(t, ast.Attribute) and t.attr == "readonly_caches" and dotted(t.value) == "self" for t in n.targets)]
+    A.anchor("self.readonly_caches = ... in Submitter.__init__", stores)
+    for st in stores:
+        made_abs = any(isinstance(k, ast.Call) and ((isinstance(k.func, ast.Attribute) and k.func.attr in ("resolve", "absolute")) or (dotted(k.func) or "").endswith("abspath")) for k in ast.walk(st.value))
+        if made_abs:
+            col.ok(rule, "Submitter.__init__ stores the read-only cache locations as absolute paths (like cache_root)", A.loc(st))
+        else:
+            col.fail(rule, init.qualname, "readonly-caches-stored-relative", "the read-only cache locations are stored as given; jobs change the working directory while they run, so for jobs created inside a running workflow a relative location is looked up under the wrong directory and a complete result in that cache is not reused", A.loc(st))
     ac = A.cls("pydra.engine.job.Job").find_method("all_caches")
     rets = [n for n in walk_own(ac.node) if isinstance(n, ast.Return)]
     txt = norm(rets[0].value) if rets else ""
